@@ -51,6 +51,9 @@ pub fn req_meaning(s: &ReqSpec) -> Option<ReqM> {
             RspM::Regs(_, w) => ReqM::Rwm(*ra, *rq, *wa, w),
             _ => return None,
         },
+        ReqSpec::WmcS(a, s) => ReqM::Wmc(*a, ref_src_bits(s)?),
+        ReqSpec::WmrS(a, s) => ReqM::Wmr(*a, ref_src_words(s)?),
+        ReqSpec::RwmS(ra, rq, wa, s) => ReqM::Rwm(*ra, *rq, *wa, ref_src_words(s)?),
         _ => return None,
     })
 }
@@ -69,6 +72,53 @@ fn ref_rsp_decode(b: &[u8]) -> Option<RspM> {
         1 | 2 => Some(RspM::Coils(b[0], (0..bc * 8).map(|i| (d[i / 8] >> (i % 8)) & 1 == 1).collect())),
         3 | 4 | 0x17 => Some(RspM::Regs(b[0], (0..bc / 2).map(|i| (d[2 * i] as u16) * 256 + d[2 * i + 1] as u16).collect())),
         _ => None,
+    }
+}
+
+/// reference reading of a container source: the coils / words the specification says the PDU carries
+/// (requests: the first `quantity` bits of the data; `None` when the fields are inconsistent)
+fn ref_src_bits(s: &Src) -> Option<Vec<bool>> {
+    let b = &s.1;
+    if s.0 == 'P' {
+        match ref_rsp_decode(b)? {
+            RspM::Coils(_, bits) => Some(bits),
+            _ => None,
+        }
+    } else {
+        if b.len() < 6 || b[0] != 0x0F {
+            return None;
+        }
+        let q = (b[3] as usize) * 256 + b[4] as usize;
+        let bc = b[5] as usize;
+        if b.len() < 6 + bc || bc < (q + 7) / 8 {
+            return None;
+        }
+        Some((0..q).map(|i| (b[6 + i / 8] >> (i % 8)) & 1 == 1).collect())
+    }
+}
+
+fn ref_src_words(s: &Src) -> Option<Vec<u16>> {
+    let b = &s.1;
+    if s.0 == 'P' {
+        match ref_rsp_decode(b)? {
+            RspM::Regs(_, w) => Some(w),
+            _ => None,
+        }
+    } else {
+        let off = match b.first()? {
+            0x10 => 1,
+            0x17 => 5,
+            _ => return None,
+        };
+        if b.len() < off + 5 {
+            return None;
+        }
+        let q = (b[off + 2] as usize) * 256 + b[off + 3] as usize;
+        let bc = b[off + 4] as usize;
+        if bc != 2 * q || b.len() < off + 5 + bc {
+            return None;
+        }
+        Some((0..q).map(|i| (b[off + 5 + 2 * i] as u16) * 256 + b[off + 6 + 2 * i] as u16).collect())
     }
 }
 
@@ -100,6 +150,15 @@ pub fn rsp_meaning(s: &PduSpec) -> Option<RspM> {
                 w.clone(),
             ),
             RspSpec::Cus(_, b, d) => RspM::Custom(*b, d.clone()),
+            RspSpec::CoilsS(n, s) => RspM::Coils(if *n == "RC" { 1 } else { 2 }, ref_src_bits(s)?),
+            RspSpec::RegsS(n, s) => RspM::Regs(
+                match *n {
+                    "RHR" => 3,
+                    "RIR" => 4,
+                    _ => 0x17,
+                },
+                ref_src_words(s)?,
+            ),
             _ => return None,
         },
     })
@@ -474,7 +533,7 @@ fn c19_rsp(spec: &PduSpec) -> String {
                 Err(_) => Ok(()),
                 Ok((_, bytes)) => {
                     let want = rsp_bytes(&m);
-                    if !rsp_fits(&m) || bytes != want {
+                    if !rsp_count_fits(&m) || bytes != want {
                         return Err(format!(
                             "encode succeeded with a count field that does not match the payload: header {}",
                             hex_of(&bytes[..bytes.len().min(6)])
